@@ -24,9 +24,27 @@ def _tag(tags):
     return ''.join('[%s] ' % t for t in tags)
 
 
+_MODES = None
+
+
+def _int_division_modes():
+    """The statement does not say whether `\\` floors or truncates a negative quotient, but an expression has *one* value:
+    the convention the implementation shows on a fixed probe is the one demanded everywhere (so that `-3.5\\2` cannot pass
+    as "truncating" while `(0-3.5)\\2` passes as "flooring").  If the probe itself misbehaves both are accepted."""
+    global _MODES
+    if _MODES is None:
+        from emmet.math_expression import evaluate
+        try:
+            v = evaluate('(0-7)\\2')
+        except Exception:
+            v = None
+        _MODES = ('floor',) if v == -4 else ('trunc',) if v == -3 else ('floor', 'trunc')
+    return _MODES
+
+
 def check_eval(src):
     from emmet.math_expression import evaluate, MathExpressionException
-    cls = c19_spec.classify(src)
+    cls = c19_spec.classify(src, _int_division_modes())
     tags = cls[2] if cls[0] in ('ok', 'malformed') else []
     try:
         got = evaluate(src)
